@@ -254,7 +254,7 @@ class Verifier:
         if C.loops:
             from .strmodel import loop_defaults
             loop_defaults(I, sf)      # after the snapshot: old() must see the values the loop rule binds later
-        I.old_ghost = {'g_enc': I.g_enc, 'g_dec': I.g_dec, 'g_nframes': I.g_nframes, 'g_ngoaway': I.g_ngoaway}
+        I.old_ghost = {'g_enc': I.g_enc, 'g_dec': I.g_dec, 'g_nframes': I.g_nframes, 'g_ngoaway': I.g_ngoaway, 'g_nencode': I.g_nencode}
         inputs = dict(sf.locals)
         outcome = None
         try:
